@@ -27,7 +27,7 @@ type c18Spec struct {
 	RepState []string `json:"replica_state"`    // semisync stopped not_semisync no_report
 	StartRO  string   `json:"master_initially"` // writable read_only super_read_only
 	Then     []int    `json:"master_usage_later"`
-	SlowHC   bool     `json:"master_daemon_health_check_every_20s"` // legal: the hosts' health-check intervals differ (manager 5 s)
+	SlowHC   bool     `json:"master_daemon_health_check_every_20s"`         // legal: the hosts' health-check intervals differ (manager 5 s)
 	ROFails  bool     `json:"read_only_statements_fail_in_the_first_phase"` // every SET read_only on the master fails with 1205 until the usage changes
 }
 
